@@ -91,7 +91,9 @@ Inductive ident_kind := IKExpr | IKSpread.
 Definition assign_right (e : node) (ik : ident_kind) : node :=
   match ik with
   | IKSpread => mk_array DUMMY [mk_spread_arg e]
-  | IKExpr => e
+  | IKExpr =>
+      (* a comma expression is the right-hand side of an assignment only inside parentheses *)
+      if is_kind KSeq e then mk_paren DUMMY e else e
   end.
 
 (** [get_expr_or_spread] *)
